@@ -70,3 +70,25 @@ META.update({
         text="Exploration: registration histories that run 2-3x past exhaustion of a topic-ID space scaled down to 1..N (N=2..12) with predefined IDs inside the range; a history invariant over all REGACK/SUBACK/REGISTER IDs: in range, never a visible predefined ID, id->name is a function that never changes, also after refusals. The thorough tier adds one run over the real 65534-ID range.",
         note=_GW_NOTE + " The ID range is scaled through a verif-tagged hook that replaces only the upper bound of the session's own ID sequence.", technique="model-based stateful PBT with a history invariant; scaled-down ID space"),
 })
+CHECKS["C13"] = dict(parts=[part("clean-termination", "gw", "TestC13", 3000, 150_000),
+                            part("dial-failure", "gw", "TestC13Dial", 16, 200, qshards=1, tshards=2)])
+CHECKS["C14"] = dict(parts=[part("will-cancelled-only-by-disconnect", "gw", "TestC14", 3000, 150_000)])
+CHECKS["C23"] = dict(parts=[part("gateway-datagrams-wellformed", "gw", "TestC23GW", 3000, 150_000)])
+CHECKS["C24"] = dict(parts=[part("mqtt-valid", "gw", "TestC24", 4000, 250_000)])
+META.update({
+    "C13": dict(
+        text="Exploration: generated session prefixes (fresh, mid-connect, active with pending exchanges, asleep with/without pinger, awake, reconnected) crossed with every termination cause at drawn offsets around the poll interval; oracle: run returns within 100 ms + 1 ms of the cause on the virtual clock, the broker connection is closed, the client gets the expected number of DISCONNECTs, and a goroutine census right after the end finds no frame of the code under test. A second part runs sessions against a refusing broker address on real loopback sockets (dial failure).",
+        note=_GW_NOTE + " Liveness is decided up to the observation window (400 ms of virtual time after the cause); the dial-failure part uses real time and treats its own timeouts as inconclusive.",
+        technique="stateful PBT (prefix x termination cause) on a virtual clock + goroutine census; fault injection (broker unreachable) on loopback"),
+    "C14": dict(
+        text="Exploration: the C13 generator; the monitor requires an MQTT DISCONNECT on the broker stream iff the client sent a plain DISCONNECT, after it, with nothing but EOF following.",
+        note=_GW_NOTE, technique="stateful PBT with an iff-monitor over the broker byte stream"),
+    "C23": dict(
+        text="Exploration: generated histories biased to rarely taken send paths (zero keep-alive, awake CONNECT, refusals, exhaustion replies, wake-up flush, retransmissions, shutdown, broker payloads up to 70000 octets); every datagram the gateway sent is decoded strictly by the reference decoder and checked for direction, length field and size <= 8192.",
+        note=_GW_NOTE + " The client-library direction is checked by a second part once the client simulator exists.",
+        technique="stateful PBT; oracle = strict reference decoder + direction table + size bound"),
+    "C24": dict(
+        text="Exploration: generated histories of decodable but improper client input; every packet the gateway writes to the broker is parsed by the independent MQTT 3.1.1 parser and validated against per-packet normative statements (each violation names its clause).",
+        note=_GW_NOTE + " Only per-packet rules are judged; repeated CONNECTs and QoS -1 PUBLISH before CONNECT are excluded as the property says.",
+        technique="stateful PBT; oracle = MQTT 3.1.1 validator with clause citations"),
+})
